@@ -58,6 +58,7 @@ properties! {
     "C08" => c08,
     "C09" => c09,
     "C10" => c10,
+    "C15" => c15,
     "C17" => c17,
     "C18" => c18,
 }
